@@ -36,7 +36,8 @@ EXTENDS Naturals, Sequences, FiniteSets, TLC
 CONSTANTS OurChains            \* chain names owned by Felix by name (configured prefixes)
 
 VARIABLES cfg,                 \* [mode: "insert"|"append", ownsAll: BOOLEAN, kchains: set of kernel/base chains]
-          desired,             \* [chains: name :-> Seq(body), ins: kchain -> Seq(body), app: kchain -> Seq(body)]
+          desired,             \* [chains: name :-> Seq(body), force: set of names (ForceProgramming),
+                               \*  ins: kchain -> Seq(body), app: kchain -> Seq(body)]
           kernel,              \* name :-> Seq([h, id, tgt])
           belief,              \* [stale: BOOLEAN, due: BOOLEAN]
           phase,               \* [inApply, readFailed, envFail, notified, consistent: BOOLEAN] (the last four: about this Apply)
@@ -56,11 +57,14 @@ Put(f, x, v) == [c \in DOMAIN f \cup {x} |-> IF c = x THEN v ELSE f[c]]
 Get(f, x) == IF x \in DOMAIN f THEN f[x] ELSE <<>>
 Targets(s) == { s[i].tgt : i \in 1..Len(s) } \ {""}
 
-EmptyDesired == [chains |-> [c \in {} |-> <<>>],
+EmptyDesired == [chains |-> [c \in {} |-> <<>>], force |-> {},
                  ins |-> [k \in cfg.kchains |-> <<>>], app |-> [k \in cfg.kchains |-> <<>>]]
 
-\* chains Felix must program: reachable from the hook rules through jumps
+\* chains Felix programs (table.go: a chain is programmed if and only if it is referenced): reachable through
+\* jumps from the hook rules or from a chain with ForceProgramming ("a force-programmed chain refers to
+\* itself"; nftables.Table has no ForceProgramming, there the flag is ignored)
 HookTargets(d) == UNION { Targets(d.ins[k]) \cup Targets(d.app[k]) : k \in DOMAIN d.ins }
+                  \cup (IF cfg.ownsAll THEN {} ELSE d.force \cap DOMAIN d.chains)
 RECURSIVE Reach(_, _)
 Reach(d, S) ==
     LET N == S \cup UNION { Targets(d.chains[c]) : c \in S \cap DOMAIN d.chains }
@@ -105,7 +109,7 @@ Converged(k, d) ==
     /\ \A c \in R : FelixChainOK(k, d, c)
     /\ \A c \in DOMAIN k :
           IF c \in cfg.kchains THEN HookChainOK(k, d, c)
-          ELSE IF OurChain(c) THEN c \in DOMAIN d.chains /\ FelixChainOK(k, d, c)   \* no stale chain
+          ELSE IF OurChain(c) THEN c \in R /\ FelixChainOK(k, d, c)       \* no stale / unreferenced chain
           ELSE HookChainOK(k, d, c)                                                 \* no stale hook rule
     /\ \A c \in cfg.kchains : (Len(d.ins[c]) + Len(d.app[c]) > 0) => c \in DOMAIN k
 
@@ -136,14 +140,15 @@ Target(k, d) ==
 Idle == ~phase.inApply
 Reset(c, k) ==
     /\ cfg' = c /\ kernel' = k
-    /\ desired' = [chains |-> [x \in {} |-> <<>>], ins |-> [x \in c.kchains |-> <<>>], app |-> [x \in c.kchains |-> <<>>]]
+    /\ desired' = [chains |-> [x \in {} |-> <<>>], force |-> {}, ins |-> [x \in c.kchains |-> <<>>], app |-> [x \in c.kchains |-> <<>>]]
     /\ belief' = [stale |-> TRUE, due |-> TRUE]
     /\ phase' = [inApply |-> FALSE, readFailed |-> FALSE, envFail |-> FALSE, notified |-> FALSE, consistent |-> TRUE]
     /\ known' = {}
 
-SetChain(c, rules) == Idle /\ desired' = [desired EXCEPT !.chains = Put(@, c, rules)]
+SetChain(c, rules, force) == Idle /\ desired' = [desired EXCEPT !.chains = Put(@, c, rules),
+                                                                  !.force = IF force THEN @ \cup {c} ELSE @ \ {c}]
                       /\ UNCHANGED <<cfg, kernel, belief, phase, known>>
-RemoveChain(c) == Idle /\ desired' = [desired EXCEPT !.chains = Drop(@, c)]
+RemoveChain(c) == Idle /\ desired' = [desired EXCEPT !.chains = Drop(@, c), !.force = @ \ {c}]
                   /\ UNCHANGED <<cfg, kernel, belief, phase, known>>
 SetIns(k, rules) == Idle /\ k \in cfg.kchains /\ desired' = [desired EXCEPT !.ins[k] = rules]
                     /\ UNCHANGED <<cfg, kernel, belief, phase, known>>
